@@ -111,8 +111,9 @@ pub fn local_to_absolute_addr(
     index: u16,
     num_proc_locals: u16,
 ) -> Result<(), AssemblyError> {
+    // a procedure without locals (including the program body) has no valid local index
+    validate_param(index, 0..num_proc_locals)?;
     let max = num_proc_locals - 1;
-    validate_param(index, 0..=max)?;
 
     push_felt(span, -Felt::from(max - index));
     span.push_op(FmpAdd);
